@@ -1,7 +1,7 @@
 (* C04 property theorems. Nothing but statements closed by [exact] and Print Assumptions. *)
 From VF Require Import Common.Base Common.Hist C04.Spec C04.Model C04.Proofs C04.ProofsRange C04.Check C04.ProofsLin.
 From VF Require C04.LazySkip C04.ProofsLazy C04.LazyReach C04.LazyLock C04.LazyProgress C04.LazyHist C04.LazyTrace
-  C04.LazyLinz C04.LazyLinThm C04.LazyRace C04.LazyPoints C04.LazyMap C04.ProofsLazyMap.
+  C04.LazyLinz C04.LazyLinThm C04.LazyRace C04.LazyPoints C04.LazyMap C04.ProofsLazyMap C04.LzmHist C04.LzmLinz C04.LzmLinThm.
 Local Open Scope Z_scope.
 
 (* single-threaded use matches the reference map / set exactly: for every operation list and every
@@ -375,6 +375,20 @@ Proof.
               (proj2 (proj2 ProofsLazyMap.lazymap_repaired_history_accepted))))).
 Qed.
 
+(* LINEARIZABILITY OF THE VALUE MODEL (repaired code): the recorded history of every complete execution of
+   Store / Load / LoadAndDelete programs, any keys and values, any schedule, is linearizable with respect to the
+   finite-map specification (the one the verified checker uses on the real histories): no lost update, no value
+   returned that was never stored, a LoadAndDelete that wins returns the current value; the final specification
+   state is the final abstract map {(key, value) | fullyLinked, not marked} *)
+Theorem C04_lazymap_linearizable : forall progs sched,
+  LazyMap.quiescent (LazyMap.run true progs sched) = true ->
+  linearizable fmap mop mres fmap_step [] (LazyMap.history true progs sched) /\
+  exists m', lin_to fmap mop mres fmap_step [] (LazyMap.history true progs sched) m' /\
+             forall k v, In (k, v) m' <-> In (k, v) (LazyMap.absmap (LazyMap.hp (LazyMap.run true progs sched))).
+Proof.
+  exact (fun progs sched Q => conj (LzmLinThm.lazymap_linearizable progs sched Q) (LzmLinThm.lazymap_lin_to progs sched Q)).
+Qed.
+
 Print Assumptions C04_seq_map.
 Print Assumptions C04_seq_set.
 Print Assumptions C04_seq_map_state.
@@ -408,3 +422,4 @@ Print Assumptions C04_lazymap_lad_returns_marked_value.
 Print Assumptions C04_lazymap_store_visible.
 Print Assumptions C04_lazymap_prerepair_refuted.
 Print Assumptions C04_lazymap_prerepair_history_rejected.
+Print Assumptions C04_lazymap_linearizable.
